@@ -143,7 +143,7 @@ pub fn run_c06(tier: &str, seed: u64, out: &mut dyn Write) {
             Some(Ok((bin, _))) => {
                 let m = install::Msg { sid: 0, program_uid: 9, num_events: bin.events.len() as u32, num_instrs: bin.instrs.len() as u32, instrs: bin };
                 let s = match catch(|| serialize::serialize(&m)) { Some(Ok(b)) => format!("LEN{} {}", b.len(), if b.len() <= 4096 { format!("M{}", hex(&b)) } else { "TOOLONG-FOR-SCRIPT".to_string() }), Some(Err(_)) => "SERERR".to_string(), None => "SERPANIC".to_string() };
-                if nst <= 100 { emit_case(out, &src[..src.len().min(200)], &format!("{} N1,2,- M{} P1,1,1,1,1,1,1,0,1,1,1,1,1,64,c8,1 T2000 I G", s.split(' ').nth(1).unwrap_or("?"),
+                if nst <= 100 { emit_case(out, &src, &format!("{} N1,2,- M{} P1,1,1,1,1,1,1,0,1,1,1,1,1,64,c8,1 T2000 I G", s.split(' ').nth(1).unwrap_or("?"),
                     hex(&serialize::serialize(&changeprog::Msg { sid: 1, program_uid: 9, num_fields: 0, fields: vec![] }).unwrap()))); }
                 else { writeln!(out, "ctlser\tinstall:{}\t{}", nst, s.split(' ').next().unwrap_or("")).unwrap(); }
             }
